@@ -346,11 +346,15 @@ func (s *Sim) finish(out *Outcome) {
 		if g.done {
 			continue
 		}
+		// deferred calls of the dying goroutine may reach simulated operations: they must see
+		// themselves as the current goroutine (and then exit at once, writing nothing: the process is gone)
+		s.cur = g
 		raceDisable()
 		g.wake <- struct{}{}
 		<-g.exitc
 		raceEnable()
 	}
+	s.cur = s.root
 	raceAcquire(&s.epoch)
 	out.Steps = s.steps
 	out.Decisions = append([]int32(nil), s.dec...)
